@@ -73,7 +73,7 @@ def run(chk):
         "obligations": pr["obligations"], "discharged": pr["discharged"], "axioms": pr["axioms"],
         "checker_cmd": "cd lean && lake build %s" % MODULE, "trusted_base": TRUSTED_BASE, "forbidden_constructs": pr["forbidden_constructs"],
         "evaluations": len(ops), "distinct_nontrivial": len(nontrivial), "exhaustive": bool(thorough), "workloads": len(cases),
-        "rule": "for every workload (5 structs x 3 codecs) a fault-free traced run maps each Read/Seek call index k of the source to the API call it occurs in (open, j-th Next); then the source fails at call k for every k (thorough) / every k < 120 and every 5th beyond (quick); the constructor must fail for faults during open, otherwise Next must be false with Error() != nil after exactly the first j-1 correct rows; never a panic; the same with a failing Read that delivers its bytes together with the error (then a complete correct read is also accepted); non-trivial = distinct (workload, k) with the predicted outcome",
+        "rule": "for every workload (8 structs x 3 codecs) a fault-free traced run maps each Read/Seek call index k of the source to the API call it occurs in (open, j-th Next); then the source fails at call k for every k (thorough) / every k < 120 and every 5th beyond (quick); the constructor must fail for faults during open, otherwise Next must be false with Error() != nil after exactly the first j-1 correct rows; never a panic; the same with a failing Read that delivers its bytes together with the error (then a complete correct read is also accepted); non-trivial = distinct (workload, k) with the predicted outcome",
         "samples": [ops[0][:160], ops[len(ops) // 2][:160]],
         "tie": "reader model = generated reader on the fault-free run; per-k outcome = prediction from the fault-free trace",
         "tie_disagreements": len(tie_breaks), "property_failures_on_impl": len(prop_fail),
